@@ -334,7 +334,7 @@ class HistoryProfile(StoreProfile):
             for c in model.configs:
                 st.create(c, s)
         A, G = build_alphabet(model, st.listing(cfg), small=True)
-        base = A if tier == "thorough" else [a for i, a in enumerate(A) if i % 3 == 0]
+        base = [a for i, a in enumerate(A) if i % (2 if tier == "thorough" else 6) == 0]
         # one run per first call: [universe, (restart, a, b) for every b]
         for a in base:
             steps = list(uni)
@@ -350,7 +350,7 @@ class HistoryProfile(StoreProfile):
         todo = [r for r in results if r.get("obslog") is not None and not r.get("violations")
                 and str(r.get("hash_seed")) != "0" and not r.get("harness_error")]
         if tier == "quick":
-            todo = todo[:80]
+            todo = todo[:60]
         replays, by_seed = {}, {}
         for r in todo:
             replays[r["seed"]] = {"params": r["params"], "steps": r["steps"], "force_hash": 0}
